@@ -10,7 +10,9 @@ PF = "libsigopt/compute/probabilistic_failures.py"
 MAF = "libsigopt/compute/multitask_acquisition_function.py"
 SPE = "libsigopt/compute/sigopt_parzen_estimator.py"
 ACQ = "libsigopt/compute/acquisition_function.py"
-EXTRA = [PRED, EI, PF, MAF, SPE, ACQ]
+GPY = "libsigopt/compute/gaussian_process.py"
+LLY = "libsigopt/compute/log_likelihood.py"
+EXTRA = [PRED, EI, PF, MAF, SPE, ACQ, GPY, LLY]
 
 MV = ("stub", [("mean", ["i"]), ("var", ["i"])])
 MVG = ("stub", [("mean", ["i"]), ("var", ["i"]), ("gmean", ["i", "k"]), ("gvar", ["i", "k"])])
@@ -25,7 +27,7 @@ PEN = ("obj", {"penalty": ("pen", ["i"]), "grad_penalty": ("gpen", ["i", "k"])},
 class _GP:
   """a tiny real GP used by the self-check drivers"""
 
-  def __init__(self, rng, dim=None, n=None):
+  def __init__(self, rng, dim=None, n=None, mean=False):
     from libsigopt.compute.covariance import C4RadialMatern, SquareExponential
     from libsigopt.compute.gaussian_process import GaussianProcess
     from libsigopt.compute.misc.data_containers import HistoricalData
@@ -36,7 +38,10 @@ class _GP:
     vals = numpy.array([rng.uniform(-1, 1) for _ in range(n)])
     hd.append_historical_data(pts, vals, numpy.array([rng.choice([1e-4, 1e-2]) for _ in range(n)]))
     cls = rng.choice([C4RadialMatern, SquareExponential])
-    self.gp = GaussianProcess(cls([rng.uniform(0.5, 2)] + [rng.uniform(0.2, 0.8) for _ in range(self.dim)]), hd)
+    idx = None
+    if mean:
+      idx = rng.choice([[[0] * self.dim], [[0] * self.dim] + [[int(a == b) for a in range(self.dim)] for b in range(self.dim)]])
+    self.gp = GaussianProcess(cls([rng.uniform(0.5, 2)] + [rng.uniform(0.2, 0.8) for _ in range(self.dim)]), hd, mean_poly_indices=idx)
     self.x = numpy.array([[rng.uniform(0, 1) for _ in range(self.dim)] for _ in range(rng.randint(1, 3))])
 
   def env(self):
@@ -191,8 +196,72 @@ def _prod_grad_ir():
   return [("", T(("sum", "q", "nq", body), ("i", "k")))]
 
 
+def drv_gpgrad(which):
+  def d(rng):
+    g = _GP(rng, n=rng.randint(4, 6), mean=True)
+    gp, x = g.gp, g.x
+    from libsigopt.compute.python_utils import build_grad_polynomial_tensor, build_polynomial_matrix
+    pcc = gp._compute_core_posterior_components(x, "all")
+    env = dict(Ke=pcc.K_eval, gK=pcc.grad_K_eval, card=pcc.cardinal_functions_at_points_to_sample, a=gp.K_inv_demeaned_y,
+               b=gp.poly_coef, P=build_polynomial_matrix(gp.mean_poly_indices, x), gP=build_grad_polynomial_tensor(gp.mean_poly_indices, x),
+               kxx=gp.covariance.covariance(x, x))
+    sizes = dict(n=gp.num_sampled, dim=g.dim, np=len(gp.poly_coef))
+    if which == "mean":
+      return env, sizes, [gp._compute_mean_of_points(x, pcc.K_eval)]
+    if which == "grad_mean":
+      return env, sizes, [gp._compute_grad_mean_of_points(x, pcc.grad_K_eval)]
+    if which == "var":
+      return env, sizes, [gp._compute_variance_of_points(x, pcc.K_eval, pcc.cardinal_functions_at_points_to_sample)]
+    return env, sizes, [gp._compute_grad_variance_of_points(pcc.grad_K_eval, pcc.cardinal_functions_at_points_to_sample)]
+  return d
+
+
+def drv_llgrad(rng):
+  from libsigopt.compute.log_likelihood import GaussianProcessLogMarginalLikelihood
+  g = _GP(rng)
+  gp = g.gp
+  log_domain, sf = rng.random() < 0.5, rng.choice([1.0, 0.25])
+  ll = GaussianProcessLogMarginalLikelihood(gp.covariance, gp.historical_data, gp.mean_poly_indices, log_domain=log_domain, scaling_factor=sf)
+  dK = ll.covariance.build_kernel_hparam_grad_tensor(ll.gp.points_sampled)
+  n = ll.gp.num_sampled
+  K = ll.covariance.build_kernel_matrix(ll.gp.points_sampled, noise_variance=ll.gp.points_sampled_noise_variance)
+  env = dict(dK=dK, a=ll.gp.K_inv_demeaned_y, Kinv=numpy.linalg.inv(K), s=sf,
+             logscale=(numpy.exp(ll.hyperparameters) if log_domain else numpy.ones(ll.num_hyperparameters)))
+  return env, dict(n=n, nh=ll.num_hyperparameters), [ll.compute_grad_log_likelihood()]
+
+
+def _llgrad_ir():
+  from . import ir
+  from .symeval import T
+  j, l, h = ir.ix("j"), ir.ix("l"), ir.ix("h")
+  quad = ("sum", "j", "n", ("sum", "l", "n", ("bin", "*", ("bin", "*", ("var", "a", (j,)), ("var", "dK", (j, l, h))), ("var", "a", (l,)))))
+  tr = ("sum", "j", "n", ("sum", "l", "n", ("bin", "*", ("var", "Kinv", (j, l)), ("var", "dK", (l, j, h)))))
+  body = ("bin", "*", ("bin", "*", ("neg", ("var", "s", ())), ("bin", "+", ("neg", quad), tr)), ("var", "logscale", (h,)))
+  return [("", T(body, ("h",)))]
+
+
 def units():
   us = []
+  gpa = {"K_inv_demeaned_y": ("a", ["j"]), "poly_coef": ("b", ["c"]), "mean_poly_indices": None,
+         "covariance": ("obj", {"translation_invariant": True, "covariance": ("stub", ("kxx", ["i"]))}, None)}
+  gsz = {"j": "n", "k": "dim", "c": "np"}
+  us.append(Unit("GenAcq", "GPScalar", "mean", GPY, "_compute_mean_of_points", "GaussianProcess",
+                 inputs={"points_to_sample": X, "K_eval": ("Ke", ["i", "j"])}, selfattrs=gpa, sizes=gsz,
+                 stubs={"build_polynomial_matrix": ("stub", ("P", ["i", "c"]))}, out_idx=["i"], driver=drv_gpgrad("mean"),
+                 note="scalar form of the posterior mean (the matrix form is in GenGP)"))
+  us.append(Unit("GenAcq", "GPScalar", "grad_mean", GPY, "_compute_grad_mean_of_points", "GaussianProcess",
+                 inputs={"points_to_sample": X, "grad_K_eval": ("gK", ["i", "j", "k"])}, selfattrs=gpa, sizes=gsz,
+                 stubs={"build_grad_polynomial_tensor": ("stub", ("gP", ["i", "c", "k"]))}, out_idx=["i", "k"], driver=drv_gpgrad("grad_mean")))
+  us.append(Unit("GenAcq", "GPScalar", "var", GPY, "_compute_variance_of_points", "GaussianProcess",
+                 inputs={"points_to_sample": X, "K_eval": ("Ke", ["i", "j"]), "cardinal_functions_at_points_to_sample": ("card", ["i", "j"])},
+                 selfattrs=gpa, sizes=gsz, out_idx=["i"], driver=drv_gpgrad("var"), note="cardinal-function branch"))
+  us.append(Unit("GenAcq", "GPScalar", "grad_var", GPY, "_compute_grad_variance_of_points", "GaussianProcess",
+                 inputs={"grad_K_eval": ("gK", ["i", "j", "k"]), "cardinal_functions_at_points_to_sample": ("card", ["i", "j"])},
+                 selfattrs=gpa, sizes=gsz, out_idx=["i", "k"], driver=drv_gpgrad("grad_var")))
+  us.append(Unit("GenAcq", "LogLikGrad", "grad", LLY, "compute_grad_log_likelihood", "GaussianProcessLogMarginalLikelihood",
+                 inputs={"a": ("a", ["j"]), "dK": ("dK", ["j", "l", "h"]), "Kinv": ("Kinv", ["j", "l"]), "s": ("s", []), "logscale": ("logscale", ["h"])},
+                 sizes={"j": "n", "h": "nh"}, hand=_llgrad_ir(), driver=drv_llgrad,
+                 note="HAND-WRITTEN IR of the per-hyperparameter loop: -s * (-(a' dK_h a) + tr(K^-1 dK_h)) * log_scaling_h, without the non-zero-mean correction (INCLUDE_NONZERO_MEAN_GRADIENT_CORRECTION = False); tied by self-check"))
   hp = {"predictor": PREDICTOR, "best_value": ("best", [])}
   us.append(Unit("GenAcq", "Core", "func", PRED, "compute_core_components", "HasPredictor", inputs={"points_to_evaluate": X, "option": "func"},
                  selfattrs=hp, sizes={"k": "dim"}, outs=[None, "mean", "var", "z", "sqrt_var", "cdf_z", "pdf_z", None, None, None],
